@@ -19,7 +19,10 @@ RULE = ("serve: histories on a LIVE server object: delivered requests interleave
         "unit ids {0,1,2,17,247,255} + hosted + random 0..255, all flag combinations, on every front-end x framing "
         "combination (enumerated).  filter: exhaustive product front-end x framing (socket on all seven; RTU, ASCII, "
         "binary on stream handlers) x hosted set x unit id {0,1,2,9,17,247,255} x single x broadcast_enable with one real frame each.  values (python side): final register/coil tables of "
-        "every unit against the tables predicted from the delivered writes.  Non-trivial = at least one request "
+        "every unit against the tables predicted from the delivered writes.  aliasing (python side): units built from one shared initial list / dict "
+        "object per table kind, from default 65536-cell tables, or with one block object shared by two tables of a unit; one "
+        "write FC 5/6/15/16/22/23 to one unit through 8 front-end x framing combinations; full table dumps of all units "
+        "before/after.  Non-trivial = at least one request "
         "delivered; distinct = distinct Coq case terms.")
 TRUSTED = c09.TRUSTED
 ASSUMPTIONS = c09.ASSUMPTIONS + [
@@ -161,8 +164,189 @@ def tls_multi_unit():
     return False
 
 
+# ----------------------------------------------------------------------------- python side: storage aliasing between units
+
+ALIAS_FES = [("sync_tcp", "socket"), ("sync_udp", "socket"), ("sync_serial", "rtu"), ("sync_serial", "ascii"),
+             ("aio_tcp", "socket"), ("aio_udp", "socket"), ("tw_tcp", "socket"), ("tw_udp", "socket")]
+ALIAS_MODES = ["shared-list", "shared-dict", "default", "twin-tables"]
+ALIAS_FCS = [5, 6, 15, 16, 22, 23]
+NCELL = 12
+
+
+def alias_context(mode, zero_mode, twin):
+    """-> (ModbusServerContext, [(uid, slave)], {uid: set of table-letter pairs that legitimately alias})
+    shared-list : every unit's four sequential blocks are initialised from ONE list object per table kind
+                  (a module-level power-on table reused by a make_slave() helper)
+    shared-dict : the same with sparse blocks initialised from ONE dict object per table kind
+    default     : ModbusSlaveContext() with its default 65536-cell tables
+    twin-tables : unit 1 deliberately uses the SAME block object for two of its tables (legitimate aliasing:
+                  only those two tables may change together); the other units are built from fresh lists"""
+    from pymodbus.datastore import ModbusSlaveContext, ModbusServerContext, ModbusSequentialDataBlock, ModbusSparseDataBlock
+    power = {"d": [i % 2 for i in range(NCELL)], "c": [(i // 2) % 2 for i in range(NCELL)],
+             "i": [100 + i for i in range(NCELL)], "h": [200 + i for i in range(NCELL)]}
+    legit = {}
+    units = {}
+    ids = [1, 2] if mode == "default" else [1, 2, 3]
+    if mode == "shared-dict":
+        pdict = {k: dict(enumerate(v)) for k, v in power.items()}
+    for u in ids:
+        if mode == "shared-list":
+            units[u] = ModbusSlaveContext(di=ModbusSequentialDataBlock(0, power["d"]), co=ModbusSequentialDataBlock(0, power["c"]),
+                                          ir=ModbusSequentialDataBlock(0, power["i"]), hr=ModbusSequentialDataBlock(0, power["h"]),
+                                          zero_mode=zero_mode)
+        elif mode == "shared-dict":
+            units[u] = ModbusSlaveContext(di=ModbusSparseDataBlock(pdict["d"]), co=ModbusSparseDataBlock(pdict["c"]),
+                                          ir=ModbusSparseDataBlock(pdict["i"]), hr=ModbusSparseDataBlock(pdict["h"]),
+                                          zero_mode=zero_mode)
+        elif mode == "default":
+            units[u] = ModbusSlaveContext()
+        else:
+            blocks = {k: ModbusSequentialDataBlock(0, list(v)) for k, v in power.items()}
+            if u == 1:
+                blocks[twin[1]] = blocks[twin[0]]
+                legit[u] = {frozenset(twin)}
+            units[u] = ModbusSlaveContext(di=blocks["d"], co=blocks["c"], ir=blocks["i"], hr=blocks["h"], zero_mode=zero_mode)
+    return ModbusServerContext(slaves=units, single=False), list(units.items()), legit
+
+
+def pack_bits(bits):
+    out = bytearray((len(bits) + 7) // 8)
+    for i, b in enumerate(bits):
+        if b:
+            out[i // 8] |= 1 << (i % 8)
+    return bytes(out)
+
+
+def alias_write(r, fc, limit):
+    """-> (pdu, table letter, wire address, f(old cells) -> new cells)"""
+    n = {5: 1, 6: 1, 15: r.choice([8, 16]) if limit > 20 else 8, 16: r.choice([1, 2, 3]), 22: 1, 23: r.choice([1, 2])}[fc]
+    a = r.choice([0, 1, limit - n, r.randrange(0, limit - n + 1)])
+    if fc == 5:
+        on = r.random() < 0.5
+        return bytes([5]) + struct.pack(">HH", a, 0xFF00 if on else 0), "c", a, lambda old: [1 if on else 0]
+    if fc == 6:
+        v = r.randrange(1, 65536)
+        return bytes([6]) + struct.pack(">HH", a, v), "h", a, lambda old: [v]
+    if fc == 15:
+        bits = [r.randrange(2) for _ in range(n)]
+        return bytes([15]) + struct.pack(">HHB", a, n, n // 8) + pack_bits(bits), "c", a, lambda old: bits
+    if fc == 16:
+        vs = [r.randrange(65536) for _ in range(n)]
+        return bytes([16]) + struct.pack(">HHB", a, n, 2 * n) + b"".join(struct.pack(">H", v) for v in vs), "h", a, lambda old: vs
+    if fc == 22:
+        am, om = r.randrange(65536), r.randrange(65536)
+        return bytes([22]) + struct.pack(">HHH", a, am, om), "h", a, lambda old: [((old[0] & am) | (om & ~am)) & 0xFFFF]
+    vs = [r.randrange(65536) for _ in range(n)]
+    return (bytes([23]) + struct.pack(">HHHHB", 0, 1, a, n, 2 * n) + b"".join(struct.pack(">H", v) for v in vs)), "h", a, lambda old: vs
+
+
+def table_cells(table, lo, n):
+    """cells lo..lo+n-1 of a dumped table (sequential: index = address, the blocks start at 0; sparse: pairs)"""
+    if table and isinstance(table[0], tuple):
+        d = dict(table)
+        return [d[lo + i] for i in range(n)]
+    return list(table[lo:lo + n])
+
+
+def with_cells(table, lo, cells):
+    if table and isinstance(table[0], tuple):
+        d = dict(table)
+        for i, v in enumerate(cells):
+            d[lo + i] = v
+        return tuple(sorted(d.items()))
+    t = list(table)
+    t[lo:lo + len(cells)] = cells
+    return tuple(t)
+
+
+def alias_one(sc):
+    """one write to `target` through a real front-end, then a read of the same cells on `other`; judged on the FULL
+    table dumps of ALL units before/after"""
+    r = common.rng("C10.alias.case.%d" % sc["n"])
+    fe, fr, mode, fc = sc["fe"], sc["framer"], sc["mode"], sc["fc"]
+    zero_mode = sc["zero_mode"] if mode != "default" else False
+    off = 0 if zero_mode else 1
+    holder = {}
+
+    def make():
+        ctx, units, legit = alias_context(mode, zero_mode, sc["twin"])
+        holder["legit"] = legit
+        return ctx, units
+    limit = (65536 if mode == "default" else NCELL) - off
+    pdu, letter, a, effect = alias_write(r, fc, limit)
+    target, other = sc["target"], sc["other"]
+    n_guess = 16
+    rpdu = lambda cnt: bytes([1 if letter == "c" else 3]) + struct.pack(">HH", a, cnt)
+    # number of cells written is known only after applying the effect to the old cells: compute from a dry run
+    dry_ctx, dry_units, _ = alias_context(mode, zero_mode, sc["twin"])
+    dry = {u: L.dump(s) for u, s in dry_units}
+    idx = "dcih".index(letter)
+    new_cells = effect(table_cells(dry[target][idx], a + off, 1))
+    cnt = len(new_cells)
+    frames = [L.adu(fr, 0x0101, target, pdu), L.adu(fr, 0x0102, other, rpdu(cnt))]
+    reads = [(f, i + 1) for i, f in enumerate(frames)] if fe in L.DATAGRAM else frames
+    rec = L.run(fe, fr, {"single": False, "bcast": False, "ignore": False}, [], reads,
+                direct=(fe == "tw_udp"), make_context=make)
+    before, after = dry, {u: L.dump(s) for u, s in rec.units}
+    why = []
+    if len(rec.delivered) != 2 or not rec.delivered[0]["results"] or rec.delivered[0]["results"][0][1][0] != "ok" \
+            or rec.delivered[0]["results"][0][1][1] != fc:
+        return None, rec, ["write not accepted (not judged here)"]
+    legit = holder["legit"].get(target, set())
+    for u in before:
+        for k, name in enumerate("dcih"):
+            exp = before[u][k]
+            if u == target and (name == letter or frozenset((name, letter)) in legit):
+                exp = with_cells(before[u][k], a + off, new_cells)
+            if after[u][k] != exp:
+                why.append("unit %d table %s differs from the expected contents" % (u, name))
+    # the other unit's read response still shows its own (power-on) cells
+    res = rec.delivered[1]["results"]
+    old = table_cells(before[other][idx], a + off, cnt)
+    want = (bytes([(cnt + 7) // 8]) + pack_bits(old)) if letter == "c" else \
+        (bytes([2 * cnt]) + b"".join(struct.pack(">H", v) for v in old))
+    if not res or res[0][1][0] != "ok" or res[0][1][4] != want:
+        why.append("unit %d read response does not show its own cells" % other)
+    return not why, rec, why
+
+
+def alias_scenarios(tier):
+    r = common.rng("C10.alias")
+    out = []
+    reps = 1 if tier == "quick" else 6
+    n = 0
+    for _ in range(reps):
+        for mode in ALIAS_MODES:
+            for fc in ALIAS_FCS:
+                for fe, fr in ALIAS_FES:
+                    ids = [1, 2] if mode == "default" else [1, 2, 3]
+                    target = 1 if mode == "twin-tables" and r.random() < 0.7 else r.choice(ids)
+                    other = r.choice([u for u in ids if u != target])
+                    n += 1
+                    out.append({"fe": fe, "framer": fr, "mode": mode, "fc": fc, "target": target, "other": other,
+                                "zero_mode": r.random() < 0.5, "twin": r.choice([["c", "d"], ["h", "i"], ["d", "c"], ["i", "h"]]),
+                                "n": (common.seed() << 20) + n})
+    return out
+
+
+def alias_check(tier):
+    fails, keys, skipped = [], [], 0
+    scs = alias_scenarios(tier)
+    for sc in scs:
+        ok, rec, why = alias_one(sc)
+        if ok is None:
+            skipped += 1
+            continue
+        keys.append(repr(sorted(sc.items())))
+        if not ok:
+            fails.append({"scenario": sc, "why": why})
+    broken = ["aliasing check: %d of %d writes were not accepted by the server" % (skipped, len(scs))] if skipped > len(scs) // 10 else []
+    return {"evaluations": len(scs) - skipped, "failures": fails, "broken": broken,
+            "samples": [{"scenario": s_} for s_ in scs[:2]], "keys": keys}
+
+
 def extra_checks(tier):
-    return {"values": values_check(tier)}
+    return {"values": values_check(tier), "aliasing": alias_check(tier)}
 
 
 # ----------------------------------------------------------------------------- findings
@@ -224,6 +408,11 @@ def classify(suite, desc):
                 _logs_if_broadcast_stops(desc) == [[u, ob["logs"][str(u)]] for u in ob["hosted_now"]]:
             return "F-C10-broadcast-stops-at-failing-unit"
         return None
+    if suite == "aliasing":
+        # sparse blocks keep the dict they are given: units built from one dict object share storage
+        if sc["mode"] == "shared-dict":
+            return "F-C10-sparse-blocks-share-initial-dict"
+        return None
     if suite == "values":
         if _bcast_with_failure(desc):
             return "F-C10-broadcast-stops-at-failing-unit"
@@ -243,6 +432,9 @@ def replay_finding(f):
     w = f["witness"]
     if f["id"] == "F-C10-tls-multi-unit-keyerror":
         return tls_multi_unit()
+    if f["id"] == "F-C10-sparse-blocks-share-initial-dict":
+        ok, _, _ = alias_one(w)
+        return ok is False
     sc = c09._witness_scenario(w)
     if f["id"] == "F-C10-twisted-udp-dead":
         return filter_observe(sc) == "FRaised TypeError"
@@ -268,6 +460,10 @@ def replay_case(suite, desc):
         r = coqrun.eval_cases("C10_replay", IMPORTS, "chk_filter code frontends", [c.term])
         print(c.desc["observed"], r)
         return bool(r["propfail"] or r["errors"] or r["disagree"])
+    if suite == "aliasing":
+        ok, rec, why = alias_one(sc)
+        print(why)
+        return ok is False
     if suite == "values":
         rec = L.run_scenario(sc)
         exp = expected_tables(sc, rec)
